@@ -19,4 +19,4 @@ for k,v in sorted(groups.items(), key=lambda kv:-len(kv[1])):
         if body in seen: continue
         seen.add(body)
         if len(seen)>int(sys.argv[2]) if len(sys.argv)>2 else 12: break
-        print('  SEED:',body.replace('\n',' ⏎ '),'  PRE:',(r.get('pre_state') or '')[-60:].replace('\n',' ⏎ '),'\n      OUT:',r.get('output','').strip()[-100:].replace('\n',' ⏎ '),'\n      EXP:',r.get('expected'),'\n      ACT:',r.get('actual'))
+        print('  SEED:',body.replace('\n',' ⏎ '),'  PRE:',(r.get('pre_state') or '')[-60:].replace('\n',' ⏎ '),'\n      OUT:',r.get('output','').strip()[-100:].replace('\n',' ⏎ '),'\n      EXP:',r.get('expected'),'\n      ACT:',(r.get('actual') or '')[:300])
